@@ -172,11 +172,21 @@ fn worker(args: &[String]) -> i32 {
     if let Err(e) = &result {
         match e {
             TestError::Fail(reason, p) => {
-                let h = exec::run_case(p, &opts);
-                let viols = (spec.oracle)(&h);
+                // the minimal program is executed again for the report; a verdict that does not
+                // show up in three further executions is not a reproducible one (the driver
+                // reports it as inconclusive)
+                let mut viols = vec![];
+                for _ in 0..3 {
+                    let h = exec::run_case(p, &opts);
+                    viols = (spec.oracle)(&h).into_iter().filter(|v| !known.iter().any(|k| *k == v.sig)).collect();
+                    if !viols.is_empty() {
+                        break;
+                    }
+                }
                 failure = json!({
                     "signature": reason.to_string(),
                     "program": p,
+                    "reproduced": !viols.is_empty(),
                     "violations": viols.iter().map(|v| json!({"sig": v.sig, "msg": v.msg})).collect::<Vec<_>>(),
                 });
             }
@@ -273,10 +283,15 @@ fn flushrace_worker(prop: &str, seed: u64, wid: u64, cases: u32, out: &str, know
     0
 }
 
-/// a "not delivered" verdict is believed only when it reproduces three times out of three
+/// a timing verdict is believed only when it reproduces three times out of three
 fn bg_run_believed(c: &bgdeliver::BgCase, flickers: &mut u64) -> bgdeliver::BgOutcome {
     let o = bgdeliver::run(c);
     if o.violations.is_empty() {
+        return o;
+    }
+    // a record that is still missing although the collector completed dozens of cycles after
+    // its span finished is lost for good, whatever the scheduler did: no second opinion needed
+    if o.cycles_while_waiting >= 50 && o.violations.iter().all(|(s, _)| s == "no-flush:not-delivered") {
         return o;
     }
     for _ in 0..2 {
